@@ -1,8 +1,303 @@
-import WhVerif.Model.C18
+import WhVerif.Lemmas.C18Abs
+import WhVerif.Lemmas.C18UF
+/-!
+# C18 — priority queue and component finder match their abstract models on all histories
+
+Model: `WhVerif/Model/C18.lean`; specifications (`Inv`, `AStep`, `ARun`, `replay`, `Allowed`, `Conn`, …):
+`WhVerif/Spec/C18.lean`.
+-/
 namespace WhVerif.Props.C18
 open WhVerif.C18
-theorem scoreLower_irrefl (a : Score) : scoreLower a a = false := by
-  induction a with
-  | nil => rfl
-  | cons x xs ih => simp [scoreLower, ih]
+
+/-! ## A. `_vector_score_lower` is a strict total order (so "not lower" is a total preorder `≥`) -/
+
+theorem scoreLower_irrefl (a : Score) : scoreLower a a = false := WhVerif.C18.scoreLower_irrefl a
+
+theorem scoreLower_trans (a b c : Score) (h1 : scoreLower a b = true) (h2 : scoreLower b c = true) :
+    scoreLower a c = true := WhVerif.C18.scoreLower_trans a b c h1 h2
+
+theorem scoreLower_asymm (a b : Score) (h : scoreLower a b = true) : scoreLower b a = false :=
+  WhVerif.C18.scoreLower_asymm a b h
+
+theorem scoreLower_trichotomy (a b : Score) : scoreLower a b = true ∨ a = b ∨ scoreLower b a = true :=
+  WhVerif.C18.scoreLower_trichotomy a b
+
+/-- `a ≥ b` and `b ≥ c` give `a ≥ c` where `x ≥ y` is `scoreLower x y = false` -/
+theorem scoreGe_trans (a b c : Score) (h1 : scoreLower a b = false) (h2 : scoreLower b c = false) :
+    scoreLower a c = false := WhVerif.C18.scoreLower_negtrans a b c h1 h2
+
+theorem scoreGe_total (a b : Score) : scoreLower a b = false ∨ scoreLower b a = false :=
+  WhVerif.C18.scoreLower_total a b
+
+/-- `≥` is antisymmetric: a genuine total order, ties are equal score vectors -/
+theorem scoreGe_antisymm (a b : Score) (h1 : scoreLower a b = false) (h2 : scoreLower b a = false) :
+    a = b := by
+  rcases WhVerif.C18.scoreLower_trichotomy a b with h | h | h
+  · simp [h] at h1
+  · exact h
+  · simp [h] at h2
+
+example : scoreLower [1, 2] [1, 3] = true ∧ scoreLower [1, 3] [2] = true ∧ scoreLower [1, 2] [2] = true := by decide
+example : scoreLower [1] [1, 0] = true ∧ scoreLower [1, 0] [1] = false := by decide
+example : scoreLower [3, 1] [2, 9] = false ∧ scoreLower [2, 9] [2] = false := by decide
+
+/-! ## B. the heap refines the abstract map -/
+
+theorem inv_empty : Inv ({} : PQ) := WhVerif.C18.inv_empty
+
+/-- every operation (also the misuse answers, which leave the state unchanged) preserves the invariant -/
+theorem step_preserves_inv (q : PQ) (hinv : Inv q) (op : Op) : Inv (step q op).1 :=
+  (step_refines hinv op).1
+
+theorem push_preserves_inv (q : PQ) (hinv : Inv q) (s : Score) (item : Nat) (hnew : q.contains item = false) :
+    Inv (q.push s item) := by
+  have := (step_refines hinv (.push s item)).1
+  simpa [step, hnew] using this
+
+theorem pop_preserves_inv (q q' : PQ) (e : Entry) (hinv : Inv q) (h : q.pop = some (e, q')) : Inv q' := by
+  have := (step_refines hinv .pop).1
+  simpa [step, h] using this
+
+theorem changeScore_preserves_inv (q q' : PQ) (hinv : Inv q) (item : Nat) (s : Score)
+    (h : q.changeScore item s = some q') : Inv q' := by
+  have := (step_refines hinv (.change item s)).1
+  simpa [step, h] using this
+
+/-- misuse answers leave the state unchanged -/
+theorem misuse_unchanged (q : PQ) (op : Op) (h : (step q op).2 = .misuse) : (step q op).1 = q := by
+  cases op with
+  | push s item => simp only [step] at h ⊢; split <;> simp_all
+  | pop => simp only [step] at h ⊢; split <;> simp_all
+  | change item s => simp only [step] at h ⊢; split <;> simp_all
+  | get item => rfl
+  | len => rfl
+  | isEmpty => rfl
+
+/-- the invariant holds after every history from the empty queue -/
+theorem inv_reachable (ops : List Op) : Inv (exec {} ops) := exec_inv WhVerif.C18.inv_empty ops
+
+/-- `pop` returns a queued entry of maximal score and removes exactly it; empty queue = `none` -/
+theorem pop_returns_max (q : PQ) (hinv : Inv q) :
+    match q.pop with
+    | none => q.entries = []
+    | some (e, q') => q.entries.Perm ((e.item, e.score) :: q'.entries) ∧
+        ∀ p ∈ q.entries, scoreLower e.score p.2 = false := by
+  obtain ⟨ho, hp⟩ := (inv_iff q).mp hinv
+  cases hpop : q.pop with
+  | none =>
+    have := (pop_none_iff q).mp hpop
+    simp [PQ.entries, Array.eq_empty_of_size_eq_zero this]
+  | some r =>
+    obtain ⟨e, q'⟩ := r
+    obtain ⟨_, _, hperm, hmax, _⟩ := pop_some hpop ho hp
+    exact ⟨hperm, hmax⟩
+
+/-- one step from a state satisfying the invariant is a step of the abstract queue on the heap's entries -/
+theorem step_refines_map (q : PQ) (hinv : Inv q) (op : Op) :
+    AStep q.entries op (step q op).1.entries (step q op).2 := (step_refines hinv op).2
+
+/-- **refinement**: for every history from the empty queue, the list of answers is a list of answers of
+the abstract queue (finite map item ↦ score; `pop` removes some entry of maximal score). -/
+theorem pq_refines_map (ops : List Op) : ARun [] ops (run {} ops) :=
+  run_refines WhVerif.C18.inv_empty ops
+
+/-- the same from any state satisfying the invariant -/
+theorem pq_refines_map_from (q : PQ) (hinv : Inv q) (ops : List Op) : ARun q.entries ops (run q ops) :=
+  run_refines hinv ops
+
+/-- the abstract queue keeps its keys distinct -/
+theorem astep_keys_nodup (M M' : AMap) (op : Op) (o : Out) (hn : M.keys.Nodup) (h : AStep M op M' o) :
+    M'.keys.Nodup := (astep_replay hn (.refl M) h).1
+
+/-- **explicit form**: the `k`-th answer of any history from the empty queue is the answer `Allowed` by
+the finite map `replay [] …` of the items queued with the scores last assigned (computed from the
+operations and the earlier answers only): `pop` answers an entry of that map with maximal score (or
+`empty` iff the map is empty), `get`/`len`/`isEmpty` report exactly that map, `push`/`change` answer
+`misuse` iff the item is already / not queued. -/
+theorem pq_answers_allowed (ops : List Op) (k : Nat) (hk : k < ops.length) :
+    (replay [] (ops.take k) ((run {} ops).take k)).keys.Nodup ∧
+    Allowed (replay [] (ops.take k) ((run {} ops).take k)) ops[k]
+      ((run {} ops)[k]'(by rw [run_length]; exact hk)) :=
+  arun_allowed (pq_refines_map ops) (by simp [AMap.keys]) (.refl _) k hk
+
+/-- the heap's entries after a history are the replayed map -/
+theorem entries_eq_replay (ops : List Op) :
+    (exec {} ops).entries.Perm (replay [] ops (run {} ops)) := by
+  suffices h : ∀ (q : PQ) (N : AMap), Inv q → q.entries.keys.Nodup → q.entries.Perm N →
+      (exec q ops).entries.Perm (replay N ops (run q ops)) by
+    exact h {} [] WhVerif.C18.inv_empty (by simp [PQ.entries, AMap.keys]) (by simp [PQ.entries])
+  induction ops with
+  | nil => intro q N _ _ h; exact h
+  | cons op ops ih =>
+    intro q N hinv hn hperm
+    obtain ⟨hinv', hstep⟩ := step_refines hinv op
+    obtain ⟨hn', hperm', _⟩ := astep_replay hn hperm hstep
+    exact ih _ _ hinv' hn' hperm'
+
+/-- in a history suffix consisting only of pops, successive popped scores are non-increasing -/
+theorem pop_nonincreasing (ops : List Op) (k : Nat) :
+    ((run {} (ops ++ List.replicate k .pop)).drop ops.length).Pairwise
+      (fun o1 o2 => ∀ s1 i1 s2 i2, o1 = .popped s1 i1 → o2 = .popped s2 i2 → scoreLower s1 s2 = false) := by
+  rw [run_append, List.drop_left' (run_length _ _)]
+  exact arun_pops_pairwise (run_refines (inv_reachable ops) _)
+
+/-- two successive pops: the second score is not greater than the first -/
+theorem pop_pop_nonincreasing (q q1 q2 : PQ) (e1 e2 : Entry) (hinv : Inv q)
+    (h1 : q.pop = some (e1, q1)) (h2 : q1.pop = some (e2, q2)) : scoreLower e1.score e2.score = false := by
+  have a := pop_returns_max q hinv
+  have b := pop_returns_max q1 (pop_preserves_inv q q1 e1 hinv h1)
+  rw [h1] at a; rw [h2] at b
+  exact a.2 _ (a.1.mem_iff.mpr (List.mem_cons_of_mem _ (b.1.mem_iff.mpr (List.mem_cons_self ..))))
+
+/-- lookups report exactly the queued items: `get_score_by_item`, `len`, `is_empty`, `in` -/
+theorem reports_exactly_queued (q : PQ) (hinv : Inv q) (item : Nat) :
+    q.getScore item = q.entries.lookup item ∧ q.len = q.entries.length ∧
+      q.isEmpty = q.entries.isEmpty ∧ (q.contains item = true ↔ item ∈ q.entries.keys) ∧
+      q.entries.keys.Nodup := by
+  obtain ⟨ho, hp⟩ := (inv_iff q).mp hinv
+  have hn : q.entries.keys.Nodup := entries_keys_nodup hp
+  refine ⟨?_, by simp [PQ.len, PQ.entries], ?_, ?_, hn⟩
+  · cases hg : q.getScore item with
+    | none => rw [lookup_of_not_mem (getScore_none hp hg)]
+    | some s => rw [lookup_of_mem hn (getScore_some hp hg)]
+  · rw [Bool.eq_iff_iff]; simp [PQ.isEmpty, PQ.entries]
+  · rw [mem_keys_iff hp, PQ.contains, Option.isSome_iff_exists]
+
+/-- draining a queue yields exactly its entries (as a multiset), used by C07 -/
+theorem drain_is_permutation (q : PQ) (hinv : Inv q) :
+    (run q (List.replicate q.len .pop)).Perm (q.entries.map (fun p => Out.popped p.2 p.1)) := by
+  have h := run_refines hinv (List.replicate q.len .pop)
+  have hl : q.len = q.entries.length := by simp [PQ.len, PQ.entries]
+  rw [hl] at h ⊢
+  exact arun_drain h
+
+/-! ### non-vacuity -/
+
+/-- a concrete 4-entry heap with equal scores, tuple scores of different lengths -/
+def exQ : PQ := exec {} [.push [1, 2] 7, .push [3] 4, .push [1, 2] 5, .push [1, 2, 0] 9, .change 7 [0]]
+
+example : exQ.heap.size = 4 ∧ exQ.contains 9 = true ∧ exQ.contains 3 = false := by decide +kernel
+example : Inv exQ := inv_reachable _
+example : exQ.pop.map (·.1) = some ⟨[3], 4⟩ := by decide +kernel
+example : (exQ.changeScore 5 [9]).isSome = true := by decide +kernel
+example : ((exQ.pop.bind (·.2.pop)).map (·.1)) = some ⟨[1, 2, 0], 9⟩ := by decide +kernel
+example : AStep [] (.push [1] 1) [(1, [1])] .unit ∧ AMap.keys [] = [] := ⟨.push (by simp [AMap.keys]) (.refl _), rfl⟩
+example : (step exQ (.push [0] 4)).2 = .misuse ∧ (step exQ (.change 3 [0])).2 = .misuse := by decide +kernel
+example : run {} [.push [1] 1, .push [2] 2, .change 1 [3], .pop, .get 1, .get 2, .len, .pop, .pop, .isEmpty]
+    = [.unit, .unit, .unit, .popped [3] 1, .score none, .score (some [2]), .len 1, .popped [2] 2, .empty,
+       .isEmpty true] := by decide +kernel
+
+/-! ## C. the component finder (union-find, smaller value becomes root, path compression) -/
+
+/-- initially there are no parent links -/
+theorem parent_lt_init (values : List Nat) : (UF.init values).ParentLt := (uinv_init values).parentLt
+
+/-- `parent_lt` (every stored parent is strictly smaller than the node and is itself a key) is preserved
+by `_find_node` (path compression) … -/
+theorem parent_lt_find (u u' : UF) (v r : Nat) (hpl : u.ParentLt) (h : u.findNode v = some (u', r)) :
+    u'.ParentLt := (findNode_spec hpl h).2.2.2.2.1
+
+/-- … and by `merge` -/
+theorem parent_lt_merge (u u' : UF) (x y : Nat) (hpl : u.ParentLt) (h : u.merge x y = some u') :
+    u'.ParentLt := merge_parentLt hpl h
+
+/-- consequence of `parent_lt`: the fuel `nodes.length` of the model's root loop is never exhausted —
+climbing from a key reaches a real root (`parent = None`), which is a key not greater than the start;
+more fuel gives the same answer. This is the termination of the first `while` loop of `_find_node`. -/
+theorem root_reaches_real_root (u : UF) (v : Nat) (hpl : u.ParentLt) (hk : u.isKey v) :
+    u.RootOf v (u.root v) ∧ u.parentOf (u.root v) = some none ∧ u.root v ≤ v ∧
+      ∀ k, u.rootFuel (u.nodes.length + k) v = u.root v := by
+  have h := root_spec hpl hk
+  refine ⟨h, rootOf_isRoot h, rootOf_le hpl h, fun k => ?_⟩
+  exact rootFuel_stable hpl hk _ (by have := cnt_lt_length hk; omega)
+
+/-- the compression loop is not cut short by its fuel either (second `while` loop of `_find_node`) -/
+theorem compression_fuel_suffices (u : UF) (v k : Nat) (hpl : u.ParentLt) (hk : u.isKey v) :
+    u.compressFuel (u.root v) (u.nodes.length + k) v = u.compressFuel (u.root v) u.nodes.length v :=
+  compressFuel_stable' hpl (root_spec hpl hk) k
+
+/-- path compression changes no root (hence no class), no key set -/
+theorem compression_preserves_classes (u u' : UF) (v r : Nat) (hpl : u.ParentLt)
+    (h : u.findNode v = some (u', r)) :
+    r = u.root v ∧ (∀ w, u'.root w = u.root w) ∧ (∀ w, u'.isKey w ↔ u.isKey w) := by
+  obtain ⟨_, e, _, k, _, _, _, rt⟩ := findNode_spec hpl h
+  exact ⟨e, rt, k⟩
+
+/-- the invariant holds initially and after every history of merges and finds, w.r.t. the pairs
+successfully merged so far -/
+theorem uf_inv_reachable (values : List Nat) (ops : List UOp) :
+    UInv values (UF.mergedPairs (UF.init values) ops) (UF.exec (UF.init values) ops) := by
+  simpa using uinv_exec (uinv_init values) ops
+
+theorem uf_inv_merge (values : List Nat) (pairs : List (Nat × Nat)) (u u' : UF) (x y : Nat)
+    (hi : UInv values pairs u) (h : u.merge x y = some u') : UInv values (pairs ++ [(x, y)]) u' :=
+  uinv_merge hi h
+
+/-- `find x` is the minimum of `x`'s connected component in the graph of merged pairs -/
+theorem find_eq_min_of_class (values : List Nat) (pairs : List (Nat × Nat)) (u u' : UF) (x r : Nat)
+    (hi : UInv values pairs u) (h : u.find x = some (u', r)) :
+    r ∈ values ∧ Conn pairs x r ∧ ∀ y, y ∈ values → Conn pairs x y → r ≤ y := by
+  obtain ⟨_, hr, _, hc, hmin, _⟩ := find_spec hi h
+  exact ⟨hr, hc, hmin⟩
+
+/-- the same after any history from `ComponentFinder(values)`; `find` raises iff `x` is not a value -/
+theorem find_eq_min_of_class_history (values : List Nat) (ops : List UOp) (x : Nat) :
+    match (UF.exec (UF.init values) ops).find x with
+    | none => x ∉ values
+    | some (_, r) => x ∈ values ∧ r ∈ values ∧ Conn (UF.mergedPairs (UF.init values) ops) x r ∧
+        ∀ y, y ∈ values → Conn (UF.mergedPairs (UF.init values) ops) x y → r ≤ y := by
+  have hi := uf_inv_reachable values ops
+  cases h : (UF.exec (UF.init values) ops).find x with
+  | none => exact (find_none_iff hi).mp h
+  | some p =>
+    obtain ⟨u', r⟩ := p
+    obtain ⟨hx, hr, _, hc, hmin, _⟩ := find_spec hi h
+    exact ⟨hx, hr, hc, hmin⟩
+
+/-- **history form**: in every history of merges and finds from `ComponentFinder(values)`, the `k`-th
+answer, if the operation is `find x`, is the minimum of the class of `x` w.r.t. the pairs merged before
+(`none` = KeyError iff `x` is not a value). -/
+theorem uf_history_finds (values : List Nat) (ops : List UOp) (k : Nat) (hk : k < ops.length) (x : Nat)
+    (hop : ops[k] = .find x) :
+    match (UF.run (UF.init values) ops)[k]'(by rw [ufrun_length]; exact hk) with
+    | none => x ∉ values
+    | some none => False
+    | some (some r) => x ∈ values ∧ r ∈ values ∧
+        Conn (UF.mergedPairs (UF.init values) (ops.take k)) x r ∧
+        ∀ y, y ∈ values → Conn (UF.mergedPairs (UF.init values) (ops.take k)) x y → r ≤ y := by
+  rw [ufrun_getElem _ _ k hk, hop]
+  have := find_eq_min_of_class_history values (ops.take k) x
+  simp only [UF.step]
+  cases h : (UF.exec (UF.init values) (ops.take k)).find x with
+  | none => simpa [h] using this
+  | some p => obtain ⟨u', r⟩ := p; simpa [h] using this
+
+/-- two elements share a representative iff they are connected (finds in sequence, with compression) -/
+theorem same_rep_iff_connected (values : List Nat) (pairs : List (Nat × Nat)) (u u1 u2 : UF)
+    (x y rx ry : Nat) (hi : UInv values pairs u) (h1 : u.find x = some (u1, rx))
+    (h2 : u1.find y = some (u2, ry)) : rx = ry ↔ Conn pairs x y := by
+  obtain ⟨hx, _, ex, _, _, hi1⟩ := find_spec hi h1
+  obtain ⟨hy, _, ey, _, _, _⟩ := find_spec hi1 h2
+  rw [conn_iff_root hi1 hx hy, ← ey]
+  obtain ⟨_, _, _, _, _, _, _, rt⟩ := findNode_spec hi.parentLt h1
+  rw [rt x, ← ex]
+
+/-- `merge` raises exactly when `x = y` (the `assert`) or a value is unknown (`KeyError`) -/
+theorem merge_raises_iff (values : List Nat) (pairs : List (Nat × Nat)) (u : UF) (x y : Nat)
+    (hi : UInv values pairs u) : u.merge x y = none ↔ (x = y ∨ x ∉ values ∨ y ∉ values) :=
+  merge_none_iff hi
+
+/-! ### non-vacuity -/
+
+def exOps : List UOp := [.merge 5 8, .merge 9 1, .find 9, .merge 8 9, .merge 3 3, .merge 3 7, .find 8, .find 3]
+def exU : UF := UF.exec (UF.init [5, 3, 8, 1, 9, 3]) exOps
+
+example : UF.run (UF.init [5, 3, 8, 1, 9, 3]) exOps =
+    [some none, some none, some (some 1), some none, none, none, some (some 1), some (some 3)] := by decide
+example : UF.mergedPairs (UF.init [5, 3, 8, 1, 9, 3]) exOps = [(5, 8), (9, 1), (8, 9)] := by decide
+example : exU.ParentLt ∧ exU.isKey 8 ∧ exU.parentOf 5 = some (some 1) :=
+  ⟨(uf_inv_reachable _ _).parentLt, by unfold UF.isKey; decide, by decide⟩
+example : UInv [5, 3, 8, 1, 9, 3] [(5, 8), (9, 1), (8, 9)] exU := uf_inv_reachable _ exOps
+example : (exU.find 8).map (·.2) = some 1 ∧ (exU.merge 3 9).isSome = true := by decide
+
 end WhVerif.Props.C18
